@@ -1,0 +1,7 @@
+//go:build verif
+
+package adjustments
+
+// Assumed contract of the Adjustment interface: no effect on the state tracked in core/sync.
+
+//@ func (Adjustment).Do
